@@ -120,6 +120,16 @@ P = {
          "received values non-decreasing and each a total, writer never parked inside Write (goroutine census), Close delivers the total "
          "and closes the channel",
          "witnessed schedules; stall detection = writer parked in ProgressWriter.sum over two samples without any event", "5/C19"),
+ "C15": ("spec/logger/Relay.tla",
+         "TLA+ model of Relay around a handler script (WriteHeader once / body / Flush / panic at every position with six value kinds), "
+         "wire status = first header; TLC checks Truthful for all scripts and two interleaved requests, rejects the Flush-not-recorded "
+         "design, and exports every script with the prescribed wire status and record counts; the harness executes each script through the "
+         "real Mux+Relay behind a real HTTP server and a recorder, on matched/unmatched routes, for the three log handlers, then under load",
+         "exhaustive over the script space of the model; each script replayed on real code (body written through Write, io.WriteString, "
+         "io.Copy, fmt.Fprintf, json.Encoder); parsed records (one destination Write = one record) must pair up by id: one REQ_BEG, one "
+         "REQ_END with the status the client received, one Error record with the panic value iff the handler panicked, 500 iff no status "
+         "was written before the panic; ids unique",
+         "status set at most once and before the body (property's quantifier); http.ErrAbortHandler itself excluded", "5/C15"),
 }
 
 NOT_BUILT_REASON = "check not built yet in this session (see DESIGN.md section 5 for the planned TLA+ spec and binding)"
